@@ -223,6 +223,7 @@ fn run_chain(out: &mut Out, mut store: GraphStore, steps: Vec<Step>, tag: &str) 
                 human.push_str(&format!(" -> Ok(created {}, merged {})", c, m));
                 // exactly the snapshot: one created or merged node per node record, one
                 // relationship per edge record, everything that was there is still there
+                // (a property stored as null counts as absent: a merge may fill it)
                 let mut why = None;
                 if c + m != n_node_recs || ec != n_edge_recs {
                     why = Some(format!("{} created + {} merged for {} node records, {} edges for {} edge records", c, m, n_node_recs, ec, n_edge_recs));
@@ -235,7 +236,7 @@ fn run_chain(out: &mut Out, mut store: GraphStore, steps: Vec<Step>, tag: &str) 
                         match after.nodes.iter().find(|x| x.id == n.id) {
                             None => why = Some(format!("node {} disappeared", n.id)),
                             Some(x) => {
-                                let kept = n.labels.iter().all(|l| x.labels.contains(l)) && n.merged.iter().all(|(k, v)| x.merged.get(k).map_or(false, |w| pv_same(v, w)));
+                                let kept = n.labels.iter().all(|l| x.labels.contains(l)) && n.merged.iter().all(|(k, v)| matches!(v, PropertyValue::Null) || x.merged.get(k).map_or(false, |w| pv_same(v, w)));
                                 if !kept {
                                     why = Some(format!("node {} lost a label or a property value: {:?} -> {:?}", n.id, n, x));
                                 } else if st.keys.is_empty() && (n.labels != x.labels || !pmap_same(&n.merged, &x.merged)) {
